@@ -128,3 +128,44 @@ theorem field_comments (eol : List Char) (vt : List Triv) (sep : Option (List Tr
     simp [commentsOut_append, sameLine, commentsOut_spaced, rawBlocks_comments, movedLines_comments, commentsOut, h1, h2,
       List.append_assoc]
 end StyluaModel.TableFieldLemmas
+
+namespace StyluaModel.CallArgLemmas
+open StyluaModel.Trivia StyluaModel.Semi StyluaModel.HangOp StyluaModel.FieldKey StyluaModel.CallArg
+open StyluaModel.SemiLemmas StyluaModel.TriviaLemmas StyluaModel.HangOpLemmas StyluaModel.FieldKeyLemmas
+
+def isBlockC (c : CKind × List Char) : Bool := match c.1 with | .block _ => true | _ => false
+def isLineC (c : CKind × List Char) : Bool := match c.1 with | .line => true | _ => false
+
+theorem blocksOut_comments (l : List Out) : commentsOut (blocksOut l) = (commentsOut l).filter isBlockC := by
+  induction l with
+  | nil => rfl
+  | cons x r ih =>
+    cases x with
+    | comment k t => cases k <;> simp [blocksOut, commentsOut, isBlockC, ih, List.filter_cons]
+    | _ => simpa [blocksOut, commentsOut] using ih
+
+theorem linesOut_comments (l : List Out) : commentsOut (linesOut l) = (commentsOut l).filter isLineC := by
+  induction l with
+  | nil => rfl
+  | cons x r ih =>
+    cases x with
+    | comment k t => cases k <;> simp [linesOut, commentsOut, isLineC, ih, List.filter_cons]
+    | _ => simpa [linesOut, commentsOut] using ih
+
+theorem arg_comments (eol : List Char) (aTrail : List Out) (sep : Option (List Triv × List Triv)) :
+    commentsOut (outs (afterArg eol aTrail sep)) =
+      (commentsOut aTrail).filter isBlockC ++ (match sep with
+        | some (pl, pt) => SemiLemmas.norm eol (commentsIn pt) ++ SemiLemmas.norm eol (commentsIn pl)
+        | none => []) ++ (commentsOut aTrail).filter isLineC := by
+  cases sep with
+  | none =>
+    simp only [afterArg, outs, List.filterMap_append, List.filterMap_map, Function.comp_def]
+    simp [commentsOut_append, sameLine, commentsOut_spaced, blocksOut_comments, linesOut_comments, commentsOut]
+  | some p =>
+    obtain ⟨pl, pt⟩ := p
+    have h1 : commentsOut (load eol .leading pl) = SemiLemmas.norm eol (commentsIn pl) := load_comments eol .leading pl 0 false
+    have h2 : commentsOut (load eol .trailing pt) = SemiLemmas.norm eol (commentsIn pt) := load_comments eol .trailing pt 0 false
+    simp only [afterArg, outs, List.filterMap_append, List.filterMap_map, Function.comp_def]
+    simp [commentsOut_append, sameLine, commentsOut_spaced, blocksOut_comments, linesOut_comments, commentsOut,
+      commentsOut_ownLine, commentsOut_only, h1, h2, List.append_assoc]
+end StyluaModel.CallArgLemmas
